@@ -353,7 +353,7 @@ def check_receivers(eng, run):
         # break -> StopAsyncIteration: the try's else raises it
         outer = next((t for t in fn.node.body if isinstance(t, ast.Try)), None)
         ok_stop = outer is not None and any(isinstance(s, ast.Raise) and "StopAsyncIteration" in ast.unparse(s) for s in outer.orelse) and \
-            any(isinstance(h.type, ast.Name) and h.type.id == "BaseException" and any(isinstance(r, ast.Return) and "ThrowAction" in ast.unparse(r) for r in h.body) for h in outer.handlers)
+            any(isinstance(h.type, ast.Name) and h.type.id == "BaseException" and isinstance(h.body[-1], ast.Return) and "ThrowAction" in " ".join(ast.unparse(x) for x in h.body) for h in outer.handlers)
         if not ok_stop:
             run.finding("C15.recv", fn, outer or fn.node, "disconnect no longer ends the request stream with StopAsyncIteration / errors are no longer returned as ThrowAction")
         # shielded yield when a request was already buffered
